@@ -4,6 +4,7 @@ import Proofs.KNC07Base
 import Proofs.KNC07Discharge
 import Proofs.KNSorters
 import Proofs.KNC07Chain
+import Proofs.KNC07Fanin
 /-!
 # C07 — Estimation result is independent of memory budget, block sizes and scheduling
 
@@ -461,6 +462,135 @@ theorem lmplz_indep_final2 {Mem Sched Out : Type}
   lmplz_indep_final2_pf I render opts hN text hash unk bos eos unkCapHash xOf hx h_enc hsp hinj hnz hmax h_sortImpl sorters h_wiring h_sorters hk m₁ m₂ s₁ s₂
 
 end singlechain
+
+/-! ## More of `h_wiring`: the adder-chain fan-in into `MergeRight`, the discounts barrier
+
+Proofs in `Proofs/KNC07Fanin.lean`; `AddRight` as a stateful reader in `Model/KNChainAdder.lean`. -/
+
+section fanin
+open KV.Vocab KV.Chain KV.KN.ChainStages KV.KN.Blocks KV.KN.Interp
+variable {W : Type} [DecidableEq W] {τ : Type}
+
+/-- **`AddRight` as a stream function**: reading the context-sorted stream `es` in ANY input blocks, it
+writes exactly one entry per context, in order: `(ctxRuns es).map (addRight d)` — the sums stream that
+`mergeRight_partition` assumes in `MergeRight`'s initial state. -/
+theorem addRight_stream (d : Disc) (es : List Emit) (inBlocks : List (List Emit)) (hb : inBlocks.flatten = es) :
+    addRightStream d inBlocks = (ctxRuns es).map (addRight d) :=
+  addRight_stream_pf d es inBlocks hb
+
+/-- **incremental reading = reading the final stream.**  In every reachable state of a chain (any
+transducers, any `b`, `m`, data, schedule): (1) what stage `i+1` has received is a prefix of what stage
+`i` has produced (the rest is in the queue between them), and (2) what worker `i` has produced so far is
+its transducer's output on what it has received so far — a prefix of its output on any longer input.
+So a consumer that reads a position block by block while the chain runs sees prefixes of the stream that
+`chain_stage_stream` describes at the end. -/
+theorem adder_prefix_monotone {τ : Type} (T : Transducers τ) {b m : Nat} {data : List Nat} {c : Chain}
+    (hb : 0 < b) (hm : 1 ≤ m) (hr : Chain.Reach (Chain.initT b m data T.toStageFn.tr) c) :
+    (∀ i, i < m → ∃ rest, (c.st i).out = (c.st (i + 1)).inp ++ rest)
+    ∧ (∀ i, 1 ≤ i → i < m → ∀ more : List Nat,
+        ∃ rest, T.run i (T.init i) (valsOf (c.st i).inp ++ more) = valsOf ((c.st i).out ++ pend (c.st i)) ++ rest) :=
+  adder_prefix_monotone_pf T hb hm hr
+
+/-- **the adder chain's fan-in**: `AddRight` (source) has read `es` in any input blocks and written its
+entries in any output blocks `sumBlocks`; whatever runs at the later positions of the chain (`TA`:
+`MergeRight`'s pass-through reader at position 1, `OnlyGamma` behind it), for every number of chain
+blocks and EVERY schedule: once the chain has finished, position 1 — where `MergeRight` reads
+(`gamma_out[i].Add()`, before `OnlyGamma`) — has received exactly `(ctxRuns es).map (addRight d)`,
+one entry per context, in order, each once. -/
+theorem adder_fanin_delivers {τ : Type} (TA : Transducers τ) (cG : BlockCode Gam) (d : Disc) (es : List Emit)
+    (inBlocks : List (List Emit)) (hin : inBlocks.flatten = es)
+    (sumBlocks : List (List Gam)) (hsum : sumBlocks.flatten = addRightStream d inBlocks)
+    {b m : Nat} {cA : Chain} (hb : 0 < b) (hm : 1 ≤ m)
+    (hr : Chain.Reach (Chain.initT b m (sumBlocks.map cG.enc) TA.toStageFn.tr) cA) (hfin : cA.main = .finished) :
+    ((valsOf (cA.st 1).inp).map cG.dec).flatten = (ctxRuns es).map (addRight d) :=
+  adder_fanin_delivers_pf TA cG d es inBlocks hin sumBlocks hsum hb hm hr hfin
+
+/-- **`MergeRight` over (adder chain, primary chain)** as a product of two C17 chains under independent
+schedules (a schedule of the pair is a pair of schedules): chain A as in `adder_fanin_delivers`; chain B
+carries the first copy of `es` in any blocks `blocksB` and its worker runs `MergeRight` over
+`PruneNGramStream`, taking its sums entries from what position 1 of chain A delivers.  For all block
+partitions on both chains, all numbers of chain blocks and all pairs of schedules, once both chains have
+finished the concatenation of what `MergeRight` hands on is the stage function of `Model/KN.lean`.
+
+Abstraction (stated, not hidden): `MergeRight`'s blocking reads on chain A (`++summed`, one per new
+context, interleaved with its own blocks) are folded into "the stream chain A delivers to position 1",
+which is the worker's initial state here; `adder_prefix_monotone` is the justification (what has been
+delivered at any moment is a prefix of that stream, so reading it incrementally reads the same entries).
+That `MergeRight` never needs more entries than arrive (no deadlock between the two chains) is C17's
+liveness for each chain separately plus `(ctxRuns es).length` entries being produced; it is not restated
+here. -/
+theorem mergeRight_two_chains {τ : Type} (TA : Transducers τ) (cG : BlockCode Gam) (cE : BlockCode Emit)
+    (cU : BlockCode Uninterp) (d : Disc) (es : List Emit)
+    (inBlocksA : List (List Emit)) (hinA : inBlocksA.flatten = es)
+    (sumBlocks : List (List Gam)) (hsum : sumBlocks.flatten = addRightStream d inBlocksA)
+    (blocksB : List (List Emit)) (hB : blocksB.flatten = es)
+    {bA mA bB mB : Nat} {cA cB : Chain} (hbA : 0 < bA) (hmA : 1 ≤ mA) (hbB : 0 < bB) (hmB : 2 ≤ mB)
+    (hrA : Chain.Reach (Chain.initT bA mA (sumBlocks.map cG.enc) TA.toStageFn.tr) cA) (hfinA : cA.main = .finished)
+    (hrB : Chain.Reach (Chain.initT bB mB (blocksB.map cE.enc)
+      (liftStage cE cU (mrBlock d) ⟨((valsOf (cA.st 1).inp).map cG.dec).flatten, none⟩).toStageFn.tr) cB)
+    (hfinB : cB.main = .finished) :
+    ((valsOf (cB.st 1).out).map cU.dec).flatten = ((ctxRuns es).flatMap (mergeRight d)).filter (·.keep) :=
+  mergeRight_two_chains_pf TA cG cE cU d es inBlocksA hinA sumBlocks hsum blocksB hB hbA hmA hbB hmB hrA hfinA hrB hfinB
+
+/-- the statistics of an order depend only on the multiset of its records -/
+theorem countsOfCounts_perm {es₁ es₂ : List Emit} (h : es₁.Perm es₂) : countsOfCounts es₁ = countsOfCounts es₂ :=
+  countsOfCounts_perm_pf h
+
+/-- **the barrier after step 2**: the discounts (and the error class, if Chen–Goodman fails without a
+fallback) computed from the per-order statistics are the same for per-order streams that are
+permutations of each other — so the hand-over needs only that step 2 has finished on all `N` chains;
+the order in which records (or chains) arrived, block boundaries and the interleaving of the `stats.Add`
+calls of different orders are not observable. -/
+theorem discounts_barrier_indep (fallback : Option Disc) {s₁ s₂ : List (List Emit)}
+    (h : List.Forall₂ List.Perm s₁ s₂) :
+    discounts fallback (s₁.map countsOfCounts) = discounts fallback (s₂.map countsOfCounts) :=
+  discounts_barrier_indep_pf fallback h
+
+/-- the fan-in facts for all codings, partitions, chain geometries and pairs of schedules (`FaninDelivers`) -/
+theorem fanin_delivers : FaninDelivers := fanin_delivers_pf
+
+/-- the barrier fact (`BarrierIndep`) -/
+theorem barrier_indep : BarrierIndep := barrier_indep_pf
+
+/-- **C07, final form.**  As `lmplz_indep_final2`, the premise of `h_wiring` now also contains the adder
+fan-in (`FaninDelivers`: `AddRight` over any input blocks, the adder chain delivering to `MergeRight`'s
+reader under every schedule, `MergeRight` over the pair of chains) and the discounts barrier
+(`BarrierIndep`) — all three premises are theorems (`single_chain_stages`, `fanin_delivers`,
+`barrier_indep`), so `h_wiring` is still logically as strong as `h_stages`; it names what REMAINS to be
+shown about the stages after the first sort:
+* `AdjustCounts::Run`'s fan-out: one loop over the sorted order-`N` chain writing the `N` chains of all
+  orders (`adjustStream`/`collapse`; C05 `adjust_stream_eq` is about the stream function, not the chains);
+* `SortAndReadTwice`: the context sort of an order delivering the same stream to two readers (the adder
+  chain's `AddRight` and the primary chain) — that both copies are the sorter's output `es`;
+* `Interpolate` / `JointOrder`: lock-step fan-in over the `N` suffix-sorted chains plus the `N−1` gamma
+  files written by `OnlyGamma` (`joinLower`, `interpOrder`, `interpAll`, `takeBackoffs*`);
+* the external sorts between the steps being correct sorts is `h_sorters` (C16 proves it of
+  `extSort`/`codeSort`); `--renumber` (a stateless per-record id map, not in the model); the printer and
+  all float arithmetic (`render`, an arbitrary function of the exact model).
+Everything else as in `lmplz_indep_final`. -/
+theorem lmplz_indep_final3 {Mem Sched Out : Type}
+    (I : Impl Mem Sched (List (List W)) Out) (render : Except Err Model → Out) (opts : Opts)
+    (hN : 1 ≤ opts.cfg.order) (text : List (List W))
+    (hash : W → Nat) (unk bos eos : W) (unkCapHash : Nat) (xOf : Mem → Nat)
+    (hx : ∀ m, 1 ≤ xOf m ∧ xOf m ≤ 2^63)
+    (h_enc : ∀ m t, I.encode m t = growableIds hash unk bos eos unkCapHash (xOf m) t)
+    (hsp : unk ≠ bos ∧ unk ≠ eos ∧ bos ≠ eos)
+    (hinj : InjOn hash ([unk, bos, eos] ++ text.flatten))
+    (hnz : ∀ w, w ∈ [unk, bos, eos] ++ text.flatten → hash w ≠ 0)
+    (hmax : (specEncode unk bos eos text).2 < kWordIndexMax)
+    (h_sortImpl : ∀ m s blocks, ∃ pick plan,
+      KV.Sort.extSort KV.Sort.suffixLt KV.Sort.combineCounts pick (toBlocks blocks) plan =
+        some ((I.sortCombine m s blocks).map toRec))
+    (sorters : Mem → Sched → Nat → Sorters)
+    (h_wiring : SingleChainsDeliver → FaninDelivers → BarrierIndep → ∀ m s full, I.post m s opts full =
+      render (estimateFromWith (sorters m s) opts.cfg opts.pruneVocab opts.fallback full))
+    (h_sorters : ∀ m s n, SortsOK (sorters m s n))
+    (hk : opts.cfg.keepSpecials = true)
+    (m₁ m₂ : Mem) (s₁ s₂ : Sched) :
+    lmplzOut I m₁ s₁ opts text = lmplzOut I m₂ s₂ opts text :=
+  lmplz_indep_final3_pf I render opts hN text hash unk bos eos unkCapHash xOf hx h_enc hsp hinj hnz hmax h_sortImpl sorters h_wiring h_sorters hk m₁ m₂ s₁ s₂
+
+end fanin
 
 /-! ## chain block boundaries inside the pipeline: the two compacting iterators -/
 
